@@ -146,7 +146,9 @@ class Reconfigure(ConfigBase):
         old_cfg, old_mpm = c.fields["config"], c.fields["mpm"]
         fn = get_func(rt, interp, self.target)
         inside = {}
-        marker = Obj(rt.builtin_class("RuntimeError"), {"args": ("raised by the block",)})
+        # the block may be left by any exception - also by one that is not an Exception (a request cancelled by
+        # asyncio.wait_for / task.cancel(): CancelledError derives from BaseException)
+        marker = Obj(rt.builtin_class("CancelledError" if "cancelled" in self.body else "RuntimeError"), {"args": ("raised by the block",)})
 
         def block(value):
             cfg = c.fields["config"]
@@ -245,6 +247,6 @@ def units(tier):
     for names in singles + pairs:
         if names:
             us.append(Configure(names))
-        for body in ("returns", "raises", "havoc+returns", "havoc+raises"):
+        for body in ("returns", "raises", "havoc+returns", "havoc+raises", "havoc+raises(cancelled)"):
             us.append(Reconfigure(names, body))
     return us
